@@ -18,7 +18,7 @@ from collections import Counter
 from hypothesis import strategies as st
 
 import rdflib.plugins.sparql as sparql_mod
-from rdflib import Dataset, Graph, URIRef, Variable
+from rdflib import ConjunctiveGraph, Dataset, Graph, URIRef, Variable
 from rdflib.graph import ReadOnlyGraphAggregate
 from rdflib.plugins.sparql import prepareQuery
 from rdflib.plugins.stores.auditable import AuditableStore
@@ -409,7 +409,7 @@ def query_texts(draw, data):
             agg = draw(st.sampled_from(["count*", "count", "sum", "avg", "min", "max"]))
             aggs.append(["n%d" % i, agg, None if agg == "count*" else ["var", draw(st.sampled_from(["s", "o"]))], draw(st.booleans()), None, None])
         cs = {"pattern": pat, "keys": keys, "aggs": aggs, "having": None, "order": None, "limit": None, "hide_keys": False}
-        return {"text": c08.agg_query_text(cs), "compare": "rows", "skipcols": [], "pattern": pat}
+        return {"text": c08.agg_query_text(cs), "compare": "rows", "skipcols": [a[0] for a in aggs if a[1] in ("min", "max")], "pattern": pat}
     path = draw(c11.path_strategy(3))
     p = c11.sparql_path(path).replace("urn:r", "urn:q")
     s = draw(st.one_of(st.just("?s"), st.just("?s"), st.sampled_from(gs.NODES[:3]).map(gs.term_text)))
@@ -417,10 +417,27 @@ def query_texts(draw, data):
     return {"text": f"SELECT * WHERE {{ {s} {p} {o} }}", "compare": "rows", "skipcols": [], "pattern": ["bgp", []], "path": True}
 
 
-def same_answer(a, b, how):
+def by_value(rows, cols):
+    """the columns named in cols (MIN / MAX results) by numeric value only: which of several terms of the least / greatest value is
+    returned (1 or 1.0) is not determined, and differs with the order a store hands the solutions out in"""
+    if not cols:
+        return rows
+    out = Counter()
+    for row, n in rows.items():
+        items = []
+        for name, v in row:
+            if name in cols and v[0] == "l" and v[2] in ref.NUMERIC:
+                nv = c08.norm(v)
+                v = ("value", nv[2] if isinstance(nv, tuple) and nv and nv[0] == "num" else v)
+            items.append((name, v))
+        out[frozenset(items)] += n
+    return out
+
+
+def same_answer(a, b, how, valuecols=()):
     if how == "count":
         return a[1] == b[1]
-    return a[0] == b[0]
+    return by_value(a[0], valuecols) == by_value(b[0], valuecols)
 
 
 # ---------------------------------------------------------------- prepared queries
@@ -454,10 +471,52 @@ def run_prepared(case):
             e = fresh if is_err(fresh) else prep
             out.fail(("prepared-vs-fresh-one-raises", "prepared" if is_err(prep) else "fresh", e.kind, e.site), f"{where}: {e!r}")
             return out
-        if not same_answer(fresh, prep, qt["compare"]):
+        if not same_answer(fresh, prep, qt["compare"], qt.get("skipcols") or ()):
             out.fail(("prepared-differs-from-fresh", "first-evaluation" if i == 0 else "later-evaluation", "with-bindings" if kw else "no-bindings"),
                      f"{where}\n fresh-only={list((fresh[0] - prep[0]).items())[:3]}\n prepared-only={list((prep[0] - fresh[0]).items())[:3]}")
             return out
+    if case.get("interleave") and len(steps) >= 2 and qt["compare"] == "rows":
+        # two evaluations of the one prepared query under way at the same time: the first is read row by row (results are produced on
+        # demand), the second is started and finished after the first row, then the first is read to its end
+        def setting(step):
+            gi, binding = step
+            kw = {"initBindings": {binding[0]: T(binding[1])}} if binding is not None and binding[1][0] != "b" else {}
+            return graphs[gi % len(graphs)], kw
+        (g1, kw1), (g2, kw2) = setting(steps[0]), setting(steps[1])
+        fresh = sut(run_query, g1, qt["text"], **kw1)
+        with warnings.catch_warnings():
+            warnings.simplefilter("ignore")
+            pq = prepareQuery(qt["text"])  # one that has not been evaluated yet
+
+        def interleaved():
+            with warnings.catch_warnings():
+                warnings.simplefilter("ignore")
+                res = g1.query(pq, **kw1)
+                it = iter(res)
+                first = next(it, None)
+                try:
+                    list(g2.query(pq, **kw2))
+                except Exception:  # noqa: BLE001  (what the second evaluation itself does is the other steps' subject)
+                    pass
+                rest = list(it)
+                rows = ([first] if first is not None else []) + rest
+                c = Counter()
+                for row in rows:
+                    c[frozenset((str(v), key(row[v])) for v in res.vars if row[v] is not None)] += 1
+                return c
+        got = sut(interleaved)
+        if is_err(fresh) != is_err(got):
+            e = fresh if is_err(fresh) else got
+            out.fail(("interleaved-evaluations-one-raises", e.kind, e.site), f"{qt['text']} steps={steps[:2]}: {e!r}")
+            return out
+        if not is_err(fresh):
+            want = Counter({k: n for k, n in by_value(fresh[0], qt.get("skipcols") or ()).items() if k})
+            have = Counter({k: n for k, n in by_value(got, qt.get("skipcols") or ()).items() if k})
+            if want != have:
+                out.fail(("interleaved-evaluations-differ", "with-bindings" if (kw1 or kw2) else "no-bindings"),
+                         f"{qt['text']}\n steps={steps[:2]} graphs={case['graphs']}\n fresh-only={list((want - have).items())[:3]}\n interleaved-only={list((have - want).items())[:3]}")
+                return out
+        out.cls("interleaved")
     out.nontrivial = len(seen) >= 2
     out.cls("steps:%d" % len(steps), "graphs:%d" % len(graphs), "path" if qt.get("path") else "no-path", "distinct-settings:%d" % len(seen))
     return out
@@ -465,6 +524,28 @@ def run_prepared(case):
 
 @st.composite
 def prepared_cases(draw, tier):
+    if draw(st.integers(0, 5)) == 0:
+        # a basic graph pattern of three or four triple patterns that form a chain, over data that has such chains, evaluated with and
+        # without its last (or first) variable given: the engine orders the patterns by what is bound, differently for the two
+        n = draw(st.integers(3, 4))
+        preds = [draw(st.sampled_from(gs.PREDS)) for _ in range(n)]
+        chains = draw(st.integers(2, 3))
+        data, ends = [], []
+        for c in range(chains):
+            nodes = [["u", "urn:n%d_%d" % (c, i)] for i in range(n + 1)]
+            if c and draw(st.booleans()):
+                nodes[0] = ["u", "urn:n0_0"]  # chains that share their start
+            ends.append((nodes[0], nodes[-1]))
+            data += [[nodes[i], preds[i], nodes[i + 1]] for i in range(n)]
+        vs = ["v%d" % i for i in range(n + 1)]
+        tps = [[["v", vs[i]], preds[i], ["v", vs[i + 1]]] for i in range(n)]
+        tps = [tps[i] for i in draw(st.permutations(range(n)))]
+        pat = ["bgp", tps]
+        qt = {"text": f"SELECT * WHERE {gs.group_text(pat)}", "compare": "rows", "skipcols": [], "pattern": pat}
+        which = draw(st.integers(0, 1))
+        given = [0, [vs[-1] if which else vs[0], draw(st.sampled_from(ends))[1 if which else 0]]]
+        steps = [[0, None], given] if draw(st.booleans()) else [given, [0, None]]
+        return {"graphs": [data], "query": qt, "steps": steps, "interleave": True}
     graphs = draw(st.lists(gs.data_triples(), min_size=1, max_size=3))
     pool = [t for d in graphs for t in d]
     qt = draw(query_texts(pool))
@@ -477,7 +558,7 @@ def prepared_cases(draw, tier):
         gi = draw(st.integers(0, 2))
         pair = [[gi, [qt["focus"], draw(st.sampled_from(vals))]], [gi, None]]
         steps = (pair if draw(st.booleans()) else pair[::-1]) + steps[:2]
-    return {"graphs": graphs, "query": qt, "steps": steps}
+    return {"graphs": graphs, "query": qt, "steps": steps, "interleave": draw(st.booleans())}
 
 
 # ---------------------------------------------------------------- store configurations
@@ -513,20 +594,50 @@ def run_stores(case):
             e = base if is_err(base) else a
             out.fail(("store-one-raises", name if is_err(a) else "Memory", e.kind, e.site), f"{where}: {e!r}")
             return out
-        if not same_answer(base, a, qt["compare"]):
+        if not same_answer(base, a, qt["compare"], qt.get("skipcols") or ()):
             out.fail(("store-answers-differ", name, "path" if qt.get("path") else "no-path"),
                      f"{where}\n Memory-only={list((base[0] - a[0]).items())[:3]}\n {name}-only={list((a[0] - base[0]).items())[:3]}")
             return out
     out.nontrivial = not is_err(base) and bool(base[0]) and len(used) >= 2
     out.cls("parts:%d" % len(used), "path" if qt.get("path") else "no-path", "rows:%d" % (0 if is_err(base) else min(sum(base[0].values()), 3)))
+    # the same quads (the partition as default graph, <urn:g1>, <urn:g2>, and a graph <urn:empty> that holds nothing) behind the plain
+    # and behind the auditable store, asked graph by graph
+    gq = case.get("graph_query")
+    if gq is not None:
+        import warnings as _w
+        answers = {}
+        for name, mk in (("Memory", lambda: Memory()), ("Auditable", lambda: AuditableStore(Memory()))):
+            with _w.catch_warnings():
+                _w.simplefilter("ignore")
+                cg = ConjunctiveGraph(store=mk())
+                cg.default_union = bool(gq["union"])
+                homes = [cg.default_context, cg.get_context(URIRef("urn:g1")), cg.get_context(URIRef("urn:g2"))]
+                for t, k in zip(data, case["partition"] + [0] * len(data)):
+                    homes[k % 3].add(tuple(T(x) for x in t))
+                body = gs.inner_text(gq["bgp"])
+                text = {"default": f"SELECT * WHERE {{ {body} }}", "var": f"SELECT * WHERE {{ GRAPH ?g {{ {body} }} }}"}.get(
+                    gq["where"], f"SELECT * WHERE {{ GRAPH <{gq['where']}> {{ {body} }} }}")
+                answers[name] = sut(run_query, cg, text)
+        a, b = answers["Memory"], answers["Auditable"]
+        if is_err(a) != is_err(b):
+            e = a if is_err(a) else b
+            out.fail(("store-one-raises", "Auditable-cg" if is_err(b) else "Memory-cg", e.kind, e.site), f"{text}: {e!r}")
+            return out
+        if not is_err(a) and a[0] != b[0]:
+            out.fail(("store-answers-differ", "Auditable-cg", gq["where"] if gq["where"] in ("default", "var") else "graph", "union" if gq["union"] else "no-union"),
+                     f"{text}\n data={data} partition={case['partition']}\n Memory-only={list((a[0] - b[0]).items())[:3]}\n Auditable-only={list((b[0] - a[0]).items())[:3]}")
+            return out
+        out.cls("graph-query:" + (gq["where"] if gq["where"] in ("default", "var") else "named"))
     return out
 
 
 @st.composite
 def store_cases(draw, tier):
     data = draw(gs.data_triples())
+    gq = {"bgp": draw(gs.bgp(pool=data) if data else gs.bgp()), "union": draw(st.booleans()),
+          "where": draw(st.sampled_from(["default", "var", "urn:g1", "urn:g2", "urn:empty", "urn:unknown"]))}
     return {"data": data, "query": draw(query_texts(data)), "partition": draw(st.lists(st.integers(0, 2), min_size=len(data), max_size=len(data))),
-            "decoy": draw(st.booleans())}
+            "decoy": draw(st.booleans()), "graph_query": gq}
 
 
 SUBCHECKS = [Sub("rewrites", lambda tier: rewrite_cases(tier), run_rewrite, {"quick": 5000, "thorough": 150000}, weight=2),
